@@ -109,6 +109,25 @@ CHECKS = {
             'the same or an incompatible shape only (numpy broadcasting to a larger shape not modelled); masks checked '
             'by the oracle only.',
             '10 (C08)'),
+    'C12': ('Lean 4 proof over a three-layer model of the table side of the report: (L1) builders + verbosity dispatch over an '
+            'abstract result: failure mark <=> result false for every built-in kind at every non-silent verbosity, Student '
+            'rows = failing bins, highlighted cells = failing bins; (L2) reST writer and reader: a written data line reads '
+            'back as its (stripped) cells; (L3) slice / join keep cells and highlights aligned + differential correspondence '
+            '(templates, shown rows, highlight matrices, the reST text character for character) + docutils parse of every '
+            'written table',
+            'mark_iff_false (equal, approx-equal, Student, Bonferroni, Holm, metadata, task / test statistics, by labels, '
+            'failed evaluation; hypothesis WFRes = what evaluate() guarantees), stats_empty_no_mark (the recorded finding: an '
+            'empty statistics result is False with nothing to mark), student_rows_eq_failing, fullTable_marks_failing, '
+            'readRow_dataRow, strip_padLeft, highlight_strip, slice_aligned, join_aligned, c12_pinned_refuted. Tied to '
+            'table_repr.py / representation.py / rst.py / templates.py on every run: real results of every kind, 6 '
+            'verbosities, Table / FullTable / Full representers; every TableTemplate is written with RstTable, compared '
+            'with the model text, parsed with docutils (cells and highlight roles read back), sliced and joined.',
+            'Trusted: Lean kernel + standard axioms; number formatting is applied by the harness with the code\'s format '
+            'string; docutils validity is checked on the implementation, not proved; with FullTable / Full representers '
+            'the composite Bonferroni rendering is split into its own part and the part of its first test; plots are not '
+            'inspected (no highlight concept); FullRepresenter is not used on N-d datasets with unit axes (its plot side '
+            'raises there: noted in DESIGN.md, outside this property).',
+            '10 (C12)'),
     'C13': ('Lean 4 proof: reads on the classification dictionary of the statistics results are the identity (induction '
             'over any sequence of reads), hence the verdict is stable; the repaired count returns what the pinned one '
             'returned + differential correspondence under random read sequences + bit-for-bit deep snapshots of every '
